@@ -223,7 +223,12 @@ class Check:
     def run_harness(s, info, h):
         res = {'harness': h.name, 'unit': h.unit, 'bounds': h.bounds, 'claims': h.claims, 'assumptions': h.assumptions,
                'unwind': h.unwind, 'unwindset': h.unwindset, 'backend': h.backend, 'known_applied': [k for k in h.known if k in s.known]}
-        rc, out, err, dt = run(s.cbmc_cmd(info, h, False, ['--slice-formula']), timeout=h.timeout, mem_gb=h.mem_gb)
+        from concurrent.futures import ThreadPoolExecutor as _TP
+        with _TP(max_workers=2) as ex2:
+            fm = ex2.submit(run, s.cbmc_cmd(info, h, False, ['--slice-formula']), h.timeout, h.mem_gb)
+            fw = ex2.submit(run, s.cbmc_cmd(info, h, True, ['--slice-formula']), h.timeout, h.mem_gb) if h.witness else None
+            rc, out, err, dt = fm.result()
+            wres = fw.result() if fw else None
         res['wall_s'] = round(dt, 2)
         m = re.search(r'(\d+) variables, (\d+) clauses', out);
         if m: res['sat_vars'] = int(m.group(1)); res['sat_clauses'] = int(m.group(2))
@@ -240,12 +245,11 @@ class Check:
                 verdict = 'SUCCESSFUL'
             res['status'] = 'pass' if verdict == 'SUCCESSFUL' else 'fail'
         if h.witness and res['status'] == 'pass':
-            rc2, out2, err2, dt2 = run(s.cbmc_cmd(info, h, True, ['--slice-formula']), timeout=h.timeout, mem_gb=h.mem_gb)
+            rc2, out2, err2, dt2 = wres
             p2, v2 = s.parse_cbmc(out2)
             wit = [p for p, t, r in p2 if r == 'FAILURE' and 'WITNESS' in t]
             res['witness_reachable'] = bool(wit); res['witness_wall_s'] = round(dt2, 2)
             if not wit: res['status'] = 'vacuous' if rc2 != 'timeout' else 'timeout'
-            res['wall_s'] += round(dt2, 2)
         return res, out
 
     def get_trace(s, info, h, propname, ptext=''):
@@ -253,7 +257,9 @@ class Check:
         if '.assertion.' in propname:      # VF_ASSERT / VF_CHK: sliced run keeps the inputs via the checksum (see vf_harness.h)
             extra += ['-DVF_TRACE', '--slice-formula']
         rc, out, err, dt = run(s.cbmc_cmd(info, h, False, extra), timeout=h.timeout, mem_gb=h.mem_gb)
-        feed = [int(m.group(1)) for m in re.finditer(r'^\s*vf_ndv=(\d+)u?l*\b', out, re.M)]
+        blocks = out.split('\nTrace for ')
+        body = blocks[1] if len(blocks) > 1 else out      # CBMC prints the trace once per reporting section: use the first
+        feed = [int(m.group(1)) for m in re.finditer(r'^\s*vf_ndv=(\d+)u?l*\b', body, re.M)]
         return feed, out
 
     def replay(s, info, h, feed, expect_desc):
@@ -294,6 +300,7 @@ class Check:
                 res['counterexamples'] = []
                 seen_confirm = False
                 for pname, ptext in sorted(res['failed'], key=lambda x: (x[0].startswith('_Z') or 'pointer' in x[0], x[0]))[:4]:
+                    if seen_confirm and '.assertion.' not in pname: continue   # slow unsliced trace not needed any more
                     feed, tout = s.get_trace(info, h, pname, ptext)
                     if not h.replayable:
                         res['counterexamples'].append({'property': pname, 'text': ptext, 'feed': feed, 'replay': 'not replayable'}); continue
